@@ -131,6 +131,18 @@ var templates = []func(u string) string{
 		return "rec(keys({\"a\": base}))\nrec(range(3))\nrec(range(1, 7, 2))\nrec(typeOf(base))\nrec(kindOf(\"s\"))\nrec(toString(base))\nrec(toInt(\"4\") + base)\nrec(toFloat(\"1.5\"))\nrec(toBool(\"true\"))\nrec(defined(\"base\"))\nrec(defined(\"nope" + u + "\"))\nzz" + u + " = 1\nrec(defined(\"zz" + u + "\"))\nrec(toIntSlice([1, base]))\nrec(toStringSlice([\"a\"]))"
 	},
 	func(u string) string {
+		// typed literals, delete, string indexing and slicing
+		return "tl" + u + " = []int64{1, 2, base}\ntl" + u + "[0] = base\nrec(tl" + u + ")\nrec([]int64{1, 2, base})\ntm" + u + " = map[string]int64{\"a\": 1, \"b\": base}\ndelete(tm" + u + ", \"a\")\nrec(len(tm" + u + "))\nrec(map[string]int64{\"a\": 1}[\"a\"])\nss" + u + " = \"hello\" + base\nrec(ss" + u + "[0])\nrec(ss" + u + "[1:3])\nrec(len(ss" + u + "))\nrec(\"ab\" * 2)\nrec(7 & 3 | 8)\nrec(1 << 3)"
+	},
+	func(u string) string {
+		// named types, struct values, new, and a buffered channel used by one goroutine
+		return "make(type Rec" + u + ", make(struct { A int64, B string }))\nv" + u + " = make(Rec" + u + ")\nv" + u + ".A = base\nv" + u + ".B = \"b\"\nrec(v" + u + ".A)\nw" + u + " = make(Rec" + u + ")\nrec(w" + u + ".A)\nn" + u + " = new(int64)\n*n" + u + " = base\nrec(*n" + u + ")\nc" + u + " = make(chan int64, 2)\nc" + u + " <- base\nc" + u + " <- 2\nrec(len(c" + u + "))\nrec(<-c" + u + ")\nclose(c" + u + ")\nrec(<-c" + u + ")\nrec(<-c" + u + ")"
+	},
+	func(u string) string {
+		// nested modules, functions stored in maps and arrays, deep recursion
+		return "module Out" + u + " {\nmodule In" + u + " {\nk = base\nfunc get() { return k * 2 }\n}\nfunc both() { return In" + u + ".get() + 1 }\n}\nrec(Out" + u + ".both())\nrec(Out" + u + ".In" + u + ".k)\nfm" + u + " = {\"inc\": func(x) { return x + base }, \"dbl\": func(x) { return x * 2 }}\nrec(fm" + u + ".inc(1))\nrec(fm" + u + "[\"dbl\"](4))\nfa" + u + " = [func() { return base }, func() { return 2 }]\nrec(fa" + u + "[0]() + fa" + u + "[1]())\nfunc deep" + u + "(n) { if n == 0 { return base }; return deep" + u + "(n - 1) }\nrec(deep" + u + "(40))"
+	},
+	func(u string) string {
 		// a long string literal bound to a variable and written through; a raw string and a block comment
 		return "s" + u + " = \"0123456789-0123456789-0123456789-0123456789\"\np" + u + " = &s" + u + "\n*p" + u + " = \"changed\" + base\nrec(\"0123456789-0123456789-0123456789-0123456789\")\nt" + u + " = \"abcdefghij-abcdefghij-abcdefghij-abcdefghij\"\nt" + u + " += base\nrec(t" + u + ")\nmust(\"abcdefghij-abcdefghij-abcdefghij-abcdefghij\" == \"abcdefghij-\" + \"abcdefghij-abcdefghij-abcdefghij\")\n/* block comment " + u + " */\nrec(`raw " + u + " string`)"
 	},
@@ -328,6 +340,8 @@ func render(v interface{}) string {
 		return "func"
 	case reflect.Ptr:
 		return "ptr"
+	case reflect.Chan, reflect.UnsafePointer:
+		return "chan" // %#v would print an address
 	}
 	return fmt.Sprintf("%T:%#v", v, v)
 }
